@@ -628,13 +628,16 @@ func c17Copy(r *core.Report) {
 					for i := 0; i < sst.NumFields(); i++ {
 						sf := sst.Field(i)
 						tag := tagOfField(sst, i)
-						if tag == "" || sf.Name() == "Extensions" || sf.Name() == "Origin" {
+						if sf.Name() == "Extensions" {
+							tag = "x-* (Extensions)" // json:"-": written by the codecs key by key
+						}
+						if tag == "" || sf.Name() == "Origin" {
 							continue
 						}
 						// target field with the same JSON name
 						var tf *types.Var
 						for j := 0; j < tst.NumFields(); j++ {
-							if tagOfField(tst, j) == tag {
+							if tagOfField(tst, j) == tag || (sf.Name() == "Extensions" && tst.Field(j).Name() == "Extensions") {
 								tf = tst.Field(j)
 							}
 						}
